@@ -16,6 +16,7 @@ SRC = [(r"src\.width\(\)", "w"), (r"src\.height\(\)", "h")]
 HEAD = r"\{\s*using RView = [^;]*;\s*return RView\("
 TAIL = r"\)\);\s*\}"
 BAL = r"(?:[^(),]|\([^()]*\))+"          # an argument: no top-level comma, parentheses balanced one level deep
+BAL2 = r"(?:[^(),]|\((?:[^()]|\([^()]*\))*\))+"   # the same, two levels deep
 XY = r"typename RView::xy_locator\(src\.xy_at\((" + BAL + r"),(" + BAL + r")\)"
 
 def factory(name, dims, steps, assign):
@@ -45,10 +46,10 @@ SYMS = [
     # memory_based_2d_locator: the y-step constructor and the stepping / transposing constructor
     Sym(LOC, r"memory_based_2d_locator\(const memory_based_2d_locator<SI>& loc, coord_t y_step\) : _p\(loc\.x\(\), (loc\.row_size\(\)\*y_step)\)", "loc_ystep_ctor",
         [("row_size", PD), ("y_step", PD)], ret=PD, expr=True, subst=[(r"loc\.row_size\(\)", "row_size")]),
-    Sym(LOC, r"_p\(make_step_iterator\(loc\.x\(\),(\(transpose \? loc\.row_size\(\) : loc\.pixel_size\(\)\)\*x_step)\)", "loc_step_ctor_x",
+    Sym(LOC, r"bool transpose=false\)\s*: _p\(make_step_iterator\(loc\.x\(\),(" + BAL2 + r")\),", "loc_step_ctor_x",
         [("transpose", "bool"), ("row_size", PD), ("pixel_size", PD), ("x_step", PD)], ret=PD, expr=True,
         subst=[(r"loc\.row_size\(\)", "row_size"), (r"loc\.pixel_size\(\)", "pixel_size")]),
-    Sym(LOC, r"_p\(make_step_iterator\(loc\.x\(\),[^\n]*\n\s*(\(transpose \? loc\.pixel_size\(\) : loc\.row_size\(\)\)\*y_step) \) \{\}", "loc_step_ctor_y",
+    Sym(LOC, r"bool transpose=false\)\s*: _p\(make_step_iterator\(loc\.x\(\)," + BAL2 + r"\),\s*(" + BAL2 + r")\s*\) \{\}", "loc_step_ctor_y",
         [("transpose", "bool"), ("row_size", PD), ("pixel_size", PD), ("y_step", PD)], ret=PD, expr=True,
         subst=[(r"loc\.row_size\(\)", "row_size"), (r"loc\.pixel_size\(\)", "pixel_size")]),
     Sym(LOC, r"std::ptrdiff_t offset\(x_coord_t x, y_coord_t y\)\s*const", "loc_offset",
